@@ -103,6 +103,10 @@ def generate(rng, tier):
                  handlers=[("Kbd", "failure")]),
     ]
     cases += [{"prog": p} for p in fixed]
+    # force_failure set in setUp / in a cleanup, setUp ending in every behaviour (fix 889980a, F21)
+    for k, (p, _) in enumerate(R.setup_force_programs()):
+        cases.append({"prog": dict(p, handlers=[list(h) for h in HANDLER_SETS[k % len(HANDLER_SETS)]])})
+        cases.append({"prog": p})
     names = list(R.ALLB)
     # all ordered pairs (test, tearDown), (test, cleanup), (setUp-cleanup, setUp), (tearDown, cleanup)
     k = 0
